@@ -20,7 +20,7 @@ func init() {
 			"R2: in the overflow branch the removed key is the result of items.First(); the branch is guarded by the strict comparison Len()>capacity evaluated after the Add. " +
 			"R3: items.Add on the miss path is dominated by the nil edge of the create function's error. R4: the create call is dominated by the not-found edge of items.Get. " +
 			"R5: the expirable wrapper removes and re-creates exactly on the GetExpiresAt().Before(now) edge and returns the value unchanged otherwise. " +
-			"R6: from the found edge of items.Get(k) every path to the return passes items.Remove(k) and then items.Add(k, same value). R7: from the success edge of the create call every path to an exit inserts the value. " +
+			"R6: from the found edge of items.Get(k) every path to the return passes items.Remove(k) and then items.Add(k, same value) - except over an edge on which Len() of the list, read behind the lookup in the same critical section, is known to be at most 1 (the found entry is the only one, hence the most recent). R7: from the success edge of the create call every path to an exit inserts the value. " +
 			"Equivalent forms are accepted: the callback invoked through a nil-safe invoker method of the callback type; entries and keys handed through local copies or the parameters of a private helper; state kept in flags or in the nil-ness of a variable (path queries carry a valuation); the eviction moved into a private helper that GetOrCreate runs under the guard; the staleness test spelled now.After(expiry) or placed in a predicate helper; the oldest key obtained as the Key of the first Next() of an iterator freshly opened over the list (what First() is), also through a private head accessor; key and pair assigned at several places (decided per path: both stem from one execution of one Next()/accessor call); key and pair read from the entry parameter of a literal that an iteration helper of the map runs on the list; the mutex, list and tables grouped in a struct the cache holds by value. " +
 			"M1-M8: the ordered map keeps its list consistent (the rules of C10), since eviction order is the list order. R8: the expiry wrapper does not apply its staleness test to the result of GetOrCreate (which may be the value this call created) followed by an unconditional Remove of the key in a separate critical section (open finding). R5 also: the clock the staleness test of the expirable wrapper uses is read before the lookup (the lookup may be the miss that creates the item). M12: the pointer surgery of the list's unlink routine (see C10.R12). R9: the in-flight table, which is what makes a miss call the create function once, is set as a whole only while the cache object is built (by the constructor or a private helper only the constructor runs) and its entries are written only by the code of GetOrCreate - a Clear or Remove that resets the table or drops entries forgets the creations that are running at that moment, and the next misser of such a key creates a second value that is returned but neither resident nor ever passed to the delete callback (the census clauses of C09.R2). R10: a call returns what it found resident or the outcome of its own call of the create function: from every wait for a creation in flight each path to a return passes a fresh lookup or the create call (a waiter never hands out the creator's outcome - a failed creation changes nothing, the waiter's call is a miss that creates), and from the not-found edge of every lookup of the requested key each path to a return passes the create call, a wait or another lookup. R11: the expiry wrapper hands the cached item out as fresh only on paths on which the comparison of its expiry with the clock was made and came out 'not before now' (the other direction of R5: no short-circuit in front of the comparison declares a class of expired items fresh).",
 		NotDecided: "refinement of a reference LRU over all call sequences; callback accounting as a count.",
@@ -33,7 +33,7 @@ func init() {
 		Explanation: "R1: every method call on the recency list and every access to the in-flight table happens with the cache mutex held. " +
 			"R2: the create call is reached only by the goroutine that registered the in-flight entry; from the registration every path to an exit closes the channel and deletes the entry, in the same critical section as the insert; the in-flight table is written only by registration, by that cleanup and by the constructor. " +
 			"R3: waiting for an in-flight creation and the create call itself run with the lock released, and a waiter goes back to the lookup. " +
-			"R4: every insert on the miss path is followed, before the lock is released, by the capacity test. R5: the delete callback runs under the mutex in the critical section of the removal it reports. " +
+			"R4: every insert on the miss path is followed, before the lock is released, by the capacity test; as a census over the package: every call of Add on the recency list - in the wrappers that share the cache's state, in private helpers and literals too - either puts back an entry a lookup of the list has found (length unchanged) or is followed by the capacity test on every path to the end of its critical section (followed to the callers of a private helper). R5: the delete callback runs under the mutex in the critical section of the removal it reports. " +
 			"Locksets see through private helpers that are only called with the mutex held and through literals run by a withLock-style wrapper; the in-flight table may map a key to the bare channel or to a record holding it (absence tested by comma-ok or, when only non-nil records are stored, by nil); the creator may close the channel it reads back from the table under the registered key (the census clauses make that the registered one); a literal run by an iteration helper of another package (which only calls it) runs under the locks held at the helper's call, minus what the literal itself may release. Q1-Q7: the sequential LRU rules of C08 (a concurrent history must be equivalent to a sequential LRU history). M1-M12: the structural rules of the ordered map the cache keeps its recency order in (C10.R1-R12): a list that loses entries evicts the wrong victim and never hands the lost values to the delete callback. R6: every exported operation of the cache other than GetOrCreate (Remove, Clear, ...) touches the recency list inside one critical section: once it gave up the mutex after a list access it does not touch the list again, neither directly nor through a helper that locks for itself (decided by composing, over all paths and through private helpers and literals, the sequence of list accesses and lock boundaries of the call) - an operation spread over two sections is not one atomic step of any sequential history. R7: a value read from the recency list is put back (the hit's move to the most-recent end) only inside the critical section that read it - no release of the mutex, or of the shared lock the lookup ran under, between the lookup and the re-insert, also across private helpers - otherwise an entry removed in the gap is resurrected without a capacity test. R8: the creator removes its in-flight entry under the very key value it registered it under (one evaluation of the key mapping, seen through local copies and helper parameters), so that the registered entry - not some other key - is what is released. R2 also, across private helpers, literals and deferred calls (a summary automaton over the events close / delete of the in-flight entry / insert / lock boundary, composed at calls and at the deferred calls of every exit): what is released in one critical section is not completed - entry dropped, value inserted - in a later one.",
 		NotDecided: "linearizability of histories; created-versus-deleted balance over schedules.",
 	})
@@ -538,7 +538,8 @@ func lruSequentialRules(c *Ctx, pfx string) {
 				return false
 			}
 			// from the lookup, with the key found, every path to an exit (or back to the lookup) moves the entry
-			ok1 := c.NoFlow(pfx+"6", "hit: entry removed from its old position", getCall, ir.Flow{Fn: goc, From: getCall, Assume: found, Block: isRem, Target: ir.IsExit},
+			// (an edge on which the list is known to hold at most one entry is accepted: the found entry is the most recent one)
+			ok1 := c.NoFlow(pfx+"6", "hit: entry removed from its old position", getCall, ir.Flow{Fn: goc, From: getCall, Assume: found, Block: isRem, BlockEdge: r.soleResidentEdgeV(goc, getCall), Target: ir.IsExit},
 				"a hit can return without moving the entry to the most-recent end: a later eviction removes a recently used entry")
 			if ok1 {
 				ir.Instrs(goc, func(x ssa.Instruction) {
@@ -1185,6 +1186,11 @@ func runC09(c *Ctx) {
 		// close, deregister and insert in one critical section: no Unlock between close and the Add / deregister
 		ir.Instrs(goc, func(in ssa.Instruction) {
 			if cc := builtinCall(in, "close"); cc != nil {
+				// (a close no path from the entry reaches - the arm of a flag that is constant after a helper was inlined - is
+				// no event of any run)
+				if w, err := (ir.Flow{Fn: goc, Target: func(x ssa.Instruction) bool { return x == in }}).Find(); w == nil && err == nil {
+					return
+				}
 				c.Decide("C09.R2", goc, "channel closed under the lock", in, lv.Held(in, mpath), "the in-flight channel is closed without the lock")
 				// no path close -> unlock -> Add
 				bad := false
@@ -1257,7 +1263,7 @@ func runC09(c *Ctx) {
 	}
 
 	lruCapacityRule(c, r, "C09.R4")
-	c.R.Floor("C09.R4", 2)
+	c.R.Floor("C09.R4", 4)
 
 	// R5 the delete callback runs under the mutex, in the critical section of the removal it belongs to
 	for _, fn := range r.bodies {
@@ -1308,6 +1314,9 @@ func runC09(c *Ctx) {
 func lruCapacityRule(c *Ctx, r *lruRoles, rule string) {
 	goc := r.getOrCreate
 	lv := r.locks
+	// the census over every insert site of the package (v_lru_census.go); it does not need the create call in
+	// GetOrCreate's own body, so it runs before that role is resolved
+	c.lruInsertCensusV(r, rule)
 	var createCall *ssa.Call
 	ir.Instrs(goc, func(in ssa.Instruction) {
 		if cc := fnValueCall(in, r.create); cc != nil {
